@@ -1706,7 +1706,13 @@ def do_geom(env, st, i):
         nsr = s.get('nside_render') or (st.get('ns') or env.maps[st.get('h', st.get('like'))].nside_sparse)
         probe = make_shape(dict(s, nside_render=None), 1)
         try:
-            if len(probe.get_pixels(nside=nsr)) == 0:
+            ppix = probe.get_pixels(nside=nsr)
+            if len(ppix) == 0:
+                return []
+            if s.get('nside_render') and int(np.max(ppix)) == 12 * nsr * nsr - 1:
+                # hpgeom.upgrade_pixel_ranges rejects a range that ends at the last pixel of the sphere
+                # (it tests the exclusive end against npix with >=): a shape with nside_render that renders
+                # pixel 12*nside^2 - 1 raises in hpgeom whatever healsparse does (third-party; skipped)
                 return []
         except Exception:  # noqa
             return []
